@@ -711,7 +711,9 @@ pub enum Call {
     /// what `write!(out, "{} {}", a.format(p1)?, b.format(p2)?)` does (both `format` calls are
     /// evaluated before either value is rendered), and what a caller does who keeps the
     /// value around.
-    Held { ty: Ty, raw: i64, pic: String, fty: Ty, fillers: Vec<(i64, String)>, at_once: bool },
+    /// `other_thread`: the held value is rendered on another thread than the one that created
+    /// it (handed to a logger thread, a task resumed on another worker) — if its type is `Send`.
+    Held { ty: Ty, raw: i64, pic: String, fty: Ty, fillers: Vec<(i64, String)>, at_once: bool, other_thread: bool },
     /// the serde impls as public functions: the value with raw count `raw` is serialized by a
     /// human-readable or compact serializer, and one primitive of kind `kind` is handed to the
     /// type's `Deserialize` by a deserializer that never allocates
@@ -720,7 +722,44 @@ pub enum Call {
 
 pub const HELD_MAX: usize = 40;
 
-fn held_rest<D: std::fmt::Display>(first: D, fty: Ty, fillers: &[(i64, String)], at_once: bool, sink: &mut FaultySink) -> &'static str {
+/// Carries a lazy value to wherever it is rendered. Which of the two `go` methods applies is
+/// decided by the compiler from the value's own type ("autoref specialisation"): on another
+/// thread if the type is `Send`, on this thread otherwise — so the harness keeps compiling if
+/// a change to the crate makes the value `!Send`.
+pub struct Carrier<T>(pub std::cell::Cell<Option<T>>);
+
+pub trait GoElsewhere {
+    fn go(&self, sink: &mut FaultySink) -> std::fmt::Result;
+}
+impl<T: std::fmt::Display + Send> GoElsewhere for Carrier<T> {
+    fn go(&self, sink: &mut FaultySink) -> std::fmt::Result {
+        let d = match self.0.take() {
+            Some(d) => d,
+            None => return Ok(()),
+        };
+        // starting the thread is the harness's own business: not counted, never refused
+        let prev = crate::alloc::suspend();
+        let r = std::thread::scope(|s| s.spawn(move || write!(sink, "{}", d)).join());
+        crate::alloc::resume(prev);
+        match r {
+            Ok(r) => r,
+            Err(payload) => std::panic::resume_unwind(payload),
+        }
+    }
+}
+pub trait GoHere {
+    fn go(&self, sink: &mut FaultySink) -> std::fmt::Result;
+}
+impl<T: std::fmt::Display> GoHere for &Carrier<T> {
+    fn go(&self, sink: &mut FaultySink) -> std::fmt::Result {
+        match self.0.take() {
+            Some(d) => write!(sink, "{}", d),
+            None => Ok(()),
+        }
+    }
+}
+
+fn held_rest(first: &mut dyn FnMut(&mut FaultySink) -> std::fmt::Result, fty: Ty, fillers: &[(i64, String)], at_once: bool, sink: &mut FaultySink) -> &'static str {
     macro_rules! go {
         ($mk:expr) => {{
             let mut held: [Option<_>; HELD_MAX] = std::array::from_fn(|_| None);
@@ -738,7 +777,7 @@ fn held_rest<D: std::fmt::Display>(first: D, fty: Ty, fillers: &[(i64, String)],
                     }
                 }
             }
-            let r = write!(sink, "{}", first);
+            let r = first(sink);
             for h in held.iter().flatten() {
                 let _ = write!(sink, " {}", h);
             }
@@ -822,14 +861,15 @@ impl Call {
             Call::Now { ty } => format!("{}::now()", ty.name()),
             Call::FromTime { ty, raw } => format!("{}::try_from(Time[{} us])", ty.name(), raw),
             Call::Func { name, args } => format!("{} with {}", name, args.to_json()),
-            Call::Held { ty, raw, pic, fty, fillers, at_once } => format!(
-                "let held = {}[raw {}].format({})?; then {} values of {} formatted with pictures of their own ({}); then write!(sink, \"{{}}\", held)",
+            Call::Held { ty, raw, pic, fty, fillers, at_once, other_thread } => format!(
+                "let held = {}[raw {}].format({})?; then {} values of {} formatted with pictures of their own ({}); then write!(sink, \"{{}}\", held){}",
                 ty.name(),
                 raw,
                 clip(pic),
                 fillers.len(),
                 fty.name(),
-                if *at_once { "each rendered at once" } else { "all held too, rendered after it" }
+                if *at_once { "each rendered at once" } else { "all held too, rendered after it" },
+                if *other_thread { " on another thread" } else { "" }
             ),
             Call::Serde { ty, raw, kind, f_bits, text, human } => format!(
                 "{}[raw {}] serialized by a {} serializer, then {}::deserialize given a {} (integer {}, float bits {:016x}, text {}) by a {} format",
@@ -862,9 +902,10 @@ impl Call {
             Call::Now { ty } => json!({"call": "now", "type": ty.name()}),
             Call::FromTime { ty, raw } => json!({"call": "from_time", "type": ty.name(), "raw": raw}),
             Call::Func { name, args } => json!({"call": "func", "name": name, "args": args.to_json()}),
-            Call::Held { ty, raw, pic, fty, fillers, at_once } => json!({
+            Call::Held { ty, raw, pic, fty, fillers, at_once, other_thread } => json!({
                 "call": "held", "type": ty.name(), "raw": raw, "picture": pic, "filler_type": fty.name(),
                 "fillers": fillers.iter().map(|(r, p)| json!([r, p])).collect::<Vec<_>>(), "fillers_rendered_at_once": at_once,
+                "rendered_on_another_thread": other_thread,
             }),
             Call::Serde { ty, raw, kind, f_bits, text, human } => json!({
                 "call": "serde", "type": ty.name(), "raw": raw, "kind": kind, "f_bits": format!("{:016x}", f_bits), "text": text, "human_readable": human,
@@ -920,6 +961,7 @@ impl Call {
                     .filter_map(|x| Some((x[0].as_i64()?, x[1].as_str()?.to_string())))
                     .collect(),
                 at_once: v["fillers_rendered_at_once"].as_bool().unwrap_or(true),
+                other_thread: v["rendered_on_another_thread"].as_bool().unwrap_or(false),
             },
             o => return Err(format!("unknown call {o}")),
         })
@@ -1125,12 +1167,25 @@ pub fn execute(call: &Call, tables: &Tables, vals: Option<&Vals>, sink: &mut Fau
             },
             Err(_) => "not-a-value",
         },
-        Call::Held { ty, raw, pic, fty, fillers, at_once } => {
+        Call::Held { ty, raw, pic, fty, fillers, at_once, other_thread } => {
             macro_rules! h {
                 ($val:expr) => {
                     match $val {
                         Ok(v) => match v.format(pic) {
-                            Ok(d) => held_rest(d, *fty, fillers, *at_once, sink),
+                            Ok(d) => {
+                                let carrier = Carrier(std::cell::Cell::new(Some(d)));
+                                let mut render = |sink: &mut FaultySink| -> std::fmt::Result {
+                                    if *other_thread {
+                                        (&carrier).go(sink)
+                                    } else {
+                                        match carrier.0.take() {
+                                            Some(d) => write!(sink, "{}", d),
+                                            None => Ok(()),
+                                        }
+                                    }
+                                };
+                                held_rest(&mut render, *fty, fillers, *at_once, sink)
+                            }
                             Err(e) => res::<()>(Err(e)),
                         },
                         Err(_) => "not-a-value",
@@ -1267,7 +1322,14 @@ pub fn gen_picture(rng: &mut Rng) -> String {
                 })
                 .collect()
         }
-        17 => " ".repeat(*rng.pick(&BLANK_RUNS)),
+        17 => {
+            if rng.chance(1, 8) {
+                // a very long picture
+                " ".repeat(*rng.pick(&[9_000usize, 40_000, 250_000]))
+            } else {
+                " ".repeat(*rng.pick(&BLANK_RUNS))
+            }
+        }
         18 => {
             // exactly 35..38 tokens: the internal field buffer holds 36
             let n = 35 + rng.usize_below(4);
@@ -1480,7 +1542,9 @@ fn gen_text_plain(rng: &mut Rng, ty: Ty, pic: &str) -> String {
         15 => String::new(),
         16 => {
             let unit = *rng.pick(&["9", " ", "-", "0", "é", "1:", "A", "+"]);
-            unit.repeat(*rng.pick(&[10usize, 255, 256, 1000, 5000]))
+            // "very long": up to a quarter of a million bytes (anything whose stack or buffer use grows
+            // with the input shows at that size, also on the 8 MiB stack of a main thread)
+            unit.repeat(*rng.pick(&[10usize, 255, 256, 1000, 5000, 30_000, 250_000]))
         }
         _ => {
             let n = rng.usize_below(40);
@@ -1543,7 +1607,7 @@ pub fn gen_call(rng: &mut Rng, tables: &Tables) -> Call {
                 };
                 let pic = pic_for(rng, ty, 0);
                 let fillers = (0..n).map(|k| (draw_value(rng, fty), pic_for(rng, fty, k + 1))).collect();
-                return Call::Held { ty, raw: draw_value(rng, ty), pic, fty, fillers, at_once: rng.bool() };
+                return Call::Held { ty, raw: draw_value(rng, ty), pic, fty, fillers, at_once: rng.bool(), other_thread: rng.chance(1, 10) };
             }
             Call::Now { ty: *rng.pick(&[Ty::Date, Ty::Timestamp, Ty::Oracle]) }
         }
